@@ -116,7 +116,7 @@ Qed.
 
 (* ---- I_SetReady: the critical section of set_ready, the return from buffer_update, turn_iter up to its yield ---- *)
 Lemma M_io_setready : forall ws d g ls,
-  dwf c T d -> List.length ws = T -> (1 <= d_live d)%nat ->
+  dwf c T d -> List.length ws = T -> (Nat.eqb ls 2 = true -> (1 <= d_live d)%nat) ->
   let t := d_turn d in
   let nodata := Nat.eqb ls 2 in
   let st' := if nodata then 3%nat else 2%nat in
@@ -129,7 +129,7 @@ Proof.
   destruct Hd as (Lb & Ln & Ht & Hlv & HT & Hc1 & Hc & Hb & Hn). destruct (Hb _ Ht) as (Hst & _). fold t in Hst, Ht.
   pose proof (fun l => rd_live d l (cpfx t) Hlv) as RL.
   subst d' d1 st' nodata. destruct (Nat.eqb ls 2) eqn:E.
-  - start_io 100. rewrite E. msteps.
+  - specialize (Hlive eq_refl). start_io 100. rewrite E. msteps.
     mstep; [rewrite mget_st by exact Ht; reflexivity | apply store_cell | ].
     erewrite (sho_mset _ _ _ _ d); [ | change (wrap U32 3) with (Z.of_nat 3); apply mset_st; assumption | reflexivity].
     msteps.
